@@ -53,6 +53,10 @@ def verifier(chk, prog, path, kind):
                 site_of(sp), path=ctx.describe_path(p))
     # the threshold belongs to the role entry selected for this role
     incs = [o for o in counter_og if o.kind == "bin" and o.key[2].startswith("Add")]
+    SET_LEN = ("std::collections::hash::set::HashSet::len", "alloc::collections::btree::set::BTreeSet::len")
+    lens = [o for o in counter_og if is_call(o, *SET_LEN)]
+    if lens and not incs:
+        return verifier_by_set_len(chk, ctx, kind, thr_og, lens, sp)
     others = [o for o in counter_og if not (o.kind == "bin" and o.key[2].startswith("Add")) and
               not (o.kind == "const" and o.extra is not None and o.extra.const_int == 0)]
     chk.require(bool(incs) and not others, "R1", f, "counter-shape",
@@ -112,6 +116,47 @@ def verifier(chk, prog, path, kind):
             chk.require(ok, "R1", f, "seen-set-outlives-loop",
                         "the set of counted key ids is not created once before the signature loop", ctx.site(b_))
     # R2 canonical message
+    r2_message(chk, ctx)
+    return True
+
+
+def verifier_by_set_len(chk, ctx, kind, thr_og, lens, sp):
+    """equivalent spelling: the number compared with the threshold is `seen.len()` of the set of key ids
+    whose signature verified — distinctness holds by construction, the guards must dominate the insert"""
+    f = ctx.fn
+    cfg = ctx.cfg
+    sel = role_entry(chk, ctx, kind, thr_og)
+    for o in lens:
+        so = ctx.origins.of_operand(o.extra.args[0])
+        chk.require(bool(so) and all(is_call(x, *SET_NEW) for x in so), "R1", f, "count-is-len-of-seen-set",
+                    "the number compared with the threshold is the length of something else than the set of verified key ids", site_of(sp))
+    gd = [(b_, t) for b_, t in ctx.calls(*SET_INSERT) if sig_field(ctx, t.args[1], "keyid")]
+    chk.require(bool(gd), "R1", f, "distinct-keyid", "no insertion of the signature's key id into the counted set")
+    ga = [(b_, t) for b_, t in ctx.calls(CONTAINS)
+          if sig_field(ctx, t.args[1], "keyid") and sel is not None and
+          all(base(o) == sel and o.fields == ("keyids",) for o in ctx.origins.of_operand(t.args[0]))]
+    gb = [(b_, t) for b_, t in ctx.calls(HGET)
+          if sig_field(ctx, t.args[1], "keyid") and
+          all(o.kind == "param" and o.key[1] == "self" and o.fields == ("keys",) for o in ctx.origins.of_operand(t.args[0]))]
+    gb_bbs = set(b_ for b_, _ in gb)
+    gc = [(b_, t) for b_, t in ctx.calls(KEY_VERIFY)
+          if sig_field(ctx, t.args[2], "sig") and
+          all(o.kind == "call" and o.key[0] in gb_bbs for o in ctx.origins.of_operand(t.args[0]))]
+    for label, sites, what in (("authorised-keyid", ga, "the key id is listed for this role"),
+                               ("key-in-table", gb, "the key is present in the delegating document's key table"),
+                               ("signature-verifies", gc, "Key::verify returned true")):
+        edges = []
+        for b_, t in sites:
+            edges.extend(ctx.track_call(b_).pos_edges(0))
+        for ib, it in gd:
+            ok = bool(edges) and ib not in cfg.reach((0,), set(edges))
+            chk.require(ok, "R1", f, label, "a key id is counted on a path that does not pass the edge on which %s" % what, ctx.site(ib))
+    loops = cfg.sccs()
+    for ib, it in gd:
+        loop = next((c for c in loops if ib in c), set())
+        so = ctx.origins.of_operand(it.args[0])
+        chk.require(bool(so) and all(is_call(o, *SET_NEW) and o.key[0] not in loop for o in so), "R1", f, "seen-set-outlives-loop",
+                    "the set of counted key ids is not created once before the signature loop", ctx.site(ib))
     r2_message(chk, ctx)
     return True
 
